@@ -237,8 +237,22 @@ Fixpoint delete_rows (fuel : nat) (tables : list ctable) (parent : string) (gone
         end) tables (Ok st)
   end.
 
+(* a self-referencing foreign key of the dropped table itself: the rows are deleted one by one, and RESTRICT refuses the
+   deletion of a row that ANOTHER row of the table still references (CASCADE / SET NULL / NO ACTION end with an empty table) *)
+Definition row_eqb (a b : row) : bool :=
+  list_eqb (fun x y => (String.eqb (fst x) (fst y) && value_eqb (snd x) (snd y))%bool) a b.
+Definition self_restrict_violated (t : ctable) (rs : list row) : bool :=
+  existsb (fun f =>
+    (ieq (sf_table f) (ct_name t)
+     && match action_of (sf_on_delete f) with Restrict => true | _ => false end
+     && existsb (fun r => let k := key_of (sf_cols f) r in
+                          (key_nonnull k && existsb (fun p => (key_eqb (key_of (sf_refcols f) p) k && negb (row_eqb p r))%bool) rs)%bool) rs)%bool)
+    (ct_fks t).
+
 Definition implicit_delete (parent : string) (parent_rows : list row) (tables : list ctable) (d : rows_db)
   : result rows_db db_error :=
+  if existsb (fun t => (ieq (ct_name t) parent && self_restrict_violated t parent_rows)%bool) tables
+  then Err (DForeignKey parent) else
   match delete_rows (S (List.length tables)) tables parent parent_rows (d, []) with
   | Err e => Err e
   | Ok (d', pend) =>
